@@ -590,8 +590,14 @@ static void dataview_case(const std::tuple<int, int, std::vector<uint8_t>> &c, p
 
 // thorough tier only: an owning array of 4 GiB + 4 KiB bytes built from a (sparse) source is a complete copy.
 // Needs ~4.5 GiB of RAM for a few seconds; skipped (and labelled) if the mapping or the allocation is refused.
-static void fixedarray_4gib(const int &sel, pbt::Ctx &ctx)
+// (the case itself says whether it runs - decided by the generator from the tier - so that a saved case replays)
+static void fixedarray_4gib(const std::pair<int, int> &cs, pbt::Ctx &ctx)
 {
+  const int sel = cs.second;
+  if (!cs.first) {
+    ctx.label("4gib-case-skipped (thorough tier only)");
+    return;
+  }
   static int runs = 0;  // 4.5 GiB and ~5 s per run: twice per process is enough
   if (runs++ >= 2) {
     ctx.label("4gib-case-already-run");
@@ -632,8 +638,8 @@ static void register_properties()
 {
   {
     const char *tier = getenv("PBT_TIER");
-    if (tier && std::string(tier) == "thorough")
-      pbt::property<int>("fixedarray_4gib", 1, pbt::range<int>(0, 2), fixedarray_4gib);
+    const int on = tier && std::string(tier) == "thorough" ? 1 : 0;
+    pbt::property<std::pair<int, int>>("fixedarray_4gib", 1, rc::gen::pair(rc::gen::just(on), pbt::range<int>(0, 2)), fixedarray_4gib);
   }
   auto ops = pbt::vec(pbt::genOpWeighted({{3, SRC_NEW}, {1, SRC_DESTROY}, {2, SRC_OVERWRITE}, {5, W_CTOR_FROM_SRC}, {1, W_CTOR_DEFAULT},
                                              {3, W_ASSIGN_FROM_SRC}, {1, W_RESET}, {2, W_RESET_PTR}, {4, OA_RESIZE}, {5, W_COPY_CTOR},
